@@ -87,53 +87,77 @@ def main(tier):
     if g is None or d is None:
         run.anchor_missing(r1, "get_era_info", "Calendar::get_era_info / get_calendar_default_era not found")
         return run.finish(EXPLANATION)
-    accepted = {}
-    arms = 0
-    for fn in (g, d):
-        m = [n for n in hir_walk(fn.hir) if isinstance(n, dict) and n.get("k") == "match"]
-        if not m:
-            run.anchor_missing(r1, fn.name, "no match table in %s" % fn.name)
-            continue
-        for arm in m[0]["arms"]:
-            pat = arm["pat"]
-            if pat.get("k") != "path" or not str(pat["path"].get("def", "")).startswith(KIND):
-                continue
-            kind = pat["path"]["def"][len(KIND):]
-            consts = [n["res"]["def"] for n in hir_walk(arm["body"]) if isinstance(n, dict) and n.get("k") == "path"
-                      and str(n.get("res", {}).get("def", "")).endswith("_ERA")]
-            if not consts:
-                continue
-            arms += 1
-            name = era_info(rs, consts[0])
-            cname = consts[0].rsplit("::", 1)[-1]
-            if kind not in accepted:
-                accepted[kind] = icu_accepted(fx, kind) if kind in ICU_TYPE else None
-            acc = accepted[kind]
-            loc = "%s:%s" % (fn.file, node_line(arm.get("body")) or fn.line)
-            key = "%s/%s/%s" % (fn.name, kind, cname)
+    # both tables are folded over their finite domain: every calendar kind x every era string that occurs anywhere in the
+    # era module, in the two functions, or among the codes the library accepts (values, not the arms of a `match`)
+    accepted = {k: icu_accepted(fx, k) for k in ICU_TYPE}
+    era_mod = "temporal_rs::builtins::core::calendar::era::"
+    words = set()
+    for fn in [g, d] + [f for f in rs.fns if f.path.startswith(era_mod)]:
+        if fn.hir is not None:
+            words |= {w for w in strs(fn.hir) if re.fullmatch(r"[a-z][a-z0-9-]{0,18}", w)}
+    for acc in accepted.values():
+        words |= set(acc or ())
+    words -= NOT_ERAS
+
+    def call(fn, kind, *args):
+        ev = H.Evaluator(fx)
+        ev.stubs["::kind"] = lambda a, kind=kind: H.V(KIND + kind, ())
+        try:
+            r = ev.call_fn(fn, [H.Sym("param", ("self",))] + list(args))
+        except (H.Panic, H.Budget):
+            return "opaque", None
+        if isinstance(r, H.V) and r.path == H.NONE:
+            return "none", None
+        if isinstance(r, H.V) and r.path == H.SOME and isinstance(r.args[0], H.S) and isinstance(H.sfield(r.args[0], "name"), str):
+            return "era", r.args[0]
+        return "opaque", r
+    hits = undecided = 0
+    for kind in sorted(ICU_TYPE):
+        acc = accepted[kind]
+        k0, e0 = call(d, kind)
+        key = "get_calendar_default_era/%s" % kind
+        if k0 == "opaque":
+            undecided += 1
+            run.ok(r1, key, "does not fold: not decided", d.loc, nontrivial=False)
+        elif k0 == "era":
+            hits += 1
+            nm = H.sfield(e0, "name")
             if acc is None:
-                run.bad(r1, key, "no icu_calendar date_from_codes found for calendar kind %s" % kind, loc)
+                run.bad(r1, key, "no icu_calendar date_from_codes found for calendar kind %s" % kind, d.loc)
             else:
-                run.check(name in acc, r1, key, "%s: era code %r is accepted by the library" % (kind, name),
-                          "%s selects %s whose era code %r is not among the codes icu_calendar accepts for %s: %s" %
-                          (fn.name, cname, name, kind, sorted(acc)), loc)
-            if fn is g and arm.get("guard") is not None:
-                aliases = []
-                gd = arm["guard"]
-                if gd.get("k") == "mcall" and gd["name"] == "contains":
-                    cp = gd["recv"]["res"].get("def") if gd["recv"].get("k") == "path" else None
-                    cf = rs.fn(cp) if cp else None
-                    aliases = strs(cf.hir) if cf is not None else []
-                else:
-                    aliases = strs(gd)
-                run.check(name in aliases, r2, key + "/" + "|".join(aliases),
-                          "aliases %s -> era %r" % (aliases, name),
-                          "the aliases %s of calendar %s resolve to %s, whose era code is %r (a different era)" %
-                          (aliases, kind, cname, name), loc)
-    run.analysed["era_table_arms"] = arms
-    if arms < 30:
-        run.anchor_missing(r1, "arms", "only %d era table arms found (expected >= 30)" % arms)
-    run.exhaustive_tables.append("get_era_info + get_calendar_default_era (%d arms)" % arms)
+                run.check(nm in acc, r1, key, "%s: default era %r is accepted by the library" % (kind, nm),
+                          "the default era of %s has the code %r, which is not among the codes icu_calendar accepts for it: %s" %
+                          (kind, nm, sorted(acc)), d.loc)
+        for w in sorted(words):
+            k1, e1 = call(g, kind, w)
+            if k1 == "opaque":
+                undecided += 1
+                continue
+            if k1 != "era":
+                continue
+            hits += 1
+            nm = H.sfield(e1, "name")
+            key = "get_era_info/%s/%s" % (kind, w)
+            if acc is None:
+                run.bad(r1, key, "no icu_calendar date_from_codes found for calendar kind %s" % kind, g.loc)
+            else:
+                run.check(nm in acc, r1, key, "%s: %r -> era code %r, accepted by the library" % (kind, w, nm),
+                          "for calendar %s the era %r resolves to the code %r, which is not among the codes icu_calendar accepts "
+                          "for it: %s" % (kind, w, nm, sorted(acc)), g.loc)
+            # the canonical code of the era an alias resolves to is itself a name of THAT era
+            k2, e2 = call(g, kind, nm)
+            if k2 == "opaque":
+                continue
+            run.check(k2 == "era" and e2 == e1, r2, key, "%r and its code %r name the same era" % (w, nm),
+                      "for calendar %s the alias %r resolves to the era with code %r, but %r itself resolves to %s (a different "
+                      "era or none): an era silently resolves to another one" %
+                      (kind, w, nm, nm, ("the era " + repr(H.sfield(e2, "name"))) if k2 == "era" else "nothing"), g.loc)
+    run.analysed["era_table_hits"] = hits
+    run.analysed["era_table_cells_not_folded"] = undecided
+    if hits < 30 and undecided == 0:
+        run.anchor_missing(r1, "arms", "only %d (calendar, era) pairs resolve (expected >= 30)" % hits)
+    run.exhaustive_tables.append("get_era_info + get_calendar_default_era (%d kinds x %d era strings, %d hits)" %
+                                 (len(ICU_TYPE), len(words), hits))
 
     # MonthCode::validate identifiers
     r3 = "R1.monthcode-calendar-identifiers"
